@@ -654,7 +654,7 @@ def run(ctx):
 
     spec_items = []        # Coq terms `mkobs ...`
     spec_expect = {}       # id -> python verdict list
-    model_items = []       # Coq terms `(mkcase ..., expected)`
+    groups = []            # per population: Coq head `mkgroup ...` and its runs `mkrun ...`
     case_info = {}         # id -> replay payload
     stats = {'runs': 0, 'plans_exhaustive_scripts': 0, 'scripts': 0, 'idle_cmds': 0, 'dirty_runs': 0,
              'aborts': 0, 'abandoned_requests': 0, 'retried_requests': 0, 'kinds': {}, 'cmd_kinds': {}}
@@ -726,10 +726,8 @@ def run(ctx):
                 ctx.counterexample('C12/abandoned-without-log-entry', '%s: %d requests abandoned, %d log entries'
                                    % (where, lost_wrapped, obs['giving_up']), replay)
             # --- correspondence with the model ---
-            expected = dhead + abort_reason(obs['abort']) + '|' + show_trace(env.ids, obs['requests'])
-            model_items.append('(mkcase %d %s %s %s %s %s, %s)' % (
-                cid, coq_network(pop), coq_colors(pop), coq_plan(env.ids, dplan), coq_plan(env.ids, plan),
-                coq_list([coq_cmd(c) for c in cmds]), coq_str(expected)))
+            expected = abort_reason(obs['abort']) + '|' + show_trace(env.ids, obs['requests'])
+            env.group['runs'].append('mkrun %d %s %s %s' % (cid, coq_plan(env.ids, plan), coq_list([coq_cmd(c) for c in cmds]), coq_str(expected)))
             if len(ctx.samples) < 5 and plan and counter[0] % 97 == 0:
                 ctx.sample({'population': brief(pop), 'script': script, 'fault_plan': sorted(plan),
                             'requests': show_trace(env.ids, obs['requests']), 'ended': abort_reason(obs['abort'])})
@@ -739,12 +737,13 @@ def run(ctx):
         d = env.discovery
         dhead = 'D%s|%s|%s|' % (d['end'], show_trace(env.ids, d['requests']), show_view(d['after']))
         judge_discovery(ctx, env, pop, dplan, d)
+        gid = new_id()
+        case_info[gid] = {'population': pop, 'discovery_plan': sorted(dplan), 'script': None}
+        env.group = {'head': 'mkgroup %d %s %s %s %s' % (gid, coq_network(pop), coq_colors(pop), coq_plan(env.ids, dplan), coq_str(dhead)),
+                     'runs': []}
+        groups.append(env.group)
         if d['end'] != 'T':
-            # nothing to run scripts on; the discovery itself is compared with the model
-            cid = new_id()
-            case_info[cid] = {'population': pop, 'discovery_plan': sorted(dplan), 'script': None}
-            model_items.append('(mkcase %d %s %s %s [] [], %s)' % (cid, coq_network(pop), coq_colors(pop), coq_plan(env.ids, dplan), coq_str(dhead)))
-            return None, dhead
+            return None, dhead      # nothing to run scripts on; the discovery itself is compared with the model
         return env, dhead
 
     # directed scenarios first (the regression corpus)
@@ -806,13 +805,36 @@ def run(ctx):
 
     # ---------------- correspondence with the model (Coq) ----------------
     if model_ok:
-        diffs = eval_checks('c12mod', 'From Bardolph Require Import Lights.Faults Run.C12Model.', 'model_check', model_items, 250, '#')
+        # shard by number of runs; a population's runs stay together
+        model_items, cur, size = [], [], 0
+        for g in groups:
+            parts = chunks(g['runs'], 220) or [[]]
+            for part in parts:
+                model_items.append('(%s %s)' % (g['head'], coq_list(part)))
+        files, cur, size = [], [], 0
+        for it, g in zip(model_items, [g for g in groups for _ in (chunks(g['runs'], 220) or [[]])]):
+            cur.append(it)
+            size += 1 + len(it) // 1200
+            if size >= 220:
+                files.append(cur)
+                cur, size = [], 0
+        if cur:
+            files.append(cur)
+        diffs = {}
+        res = common.run_cases('c12mod', 'From Bardolph Require Import Lights.Faults Run.C12Model.',
+                               ['Eval vm_compute in (model_check %s).\n' % coq_list(f) for f in files])
+        for ok, strs, log in res:
+            if not ok or len(strs) != 1:
+                raise RuntimeError('coq evaluation of model_check failed: %s' % log[-1500:])
+            for it in strs[0].split('#')[:-1]:
+                i, _, text = it.partition('=')
+                diffs[int(i)] = text
         for i in sorted(diffs)[:3]:
             ctx.broken_tie('correspondence', 'requests/result vs model', {'case': case_info[i], 'model': diffs[i][:1500]})
         ddiffs = eval_checks('c12dmod', 'From Bardolph Require Import Lights.Faults Run.C12Model.', 'model_rediscover_check', disc_model_items, 150, '#')
         for i in sorted(ddiffs)[:3]:
             ctx.broken_tie('correspondence', 'rediscovery vs model', {'case': disc_info[i], 'model': ddiffs[i][:1500]})
-        ctx.extra['model_cases'] = len(model_items) + len(disc_model_items)
+        ctx.extra['model_cases'] = sum(len(g['runs']) + 1 for g in groups) + len(disc_model_items)
         ctx.stage('model (coq)')
     ctx.extra.update(stats)
     ctx.extra['populations'] = n_pops
